@@ -526,10 +526,12 @@ where
 
     // 2. Iterate through each shard, notify the corresponding policy for each
     //    key being removed, and then clear the shard's map.
+    let mut removed_cost: u64 = 0;
     for (i, guard) in shard_guards.iter_mut().enumerate() {
       let policy = &self.shared.cache_policy[i];
-      for key in guard.keys() {
+      for (key, entry) in guard.iter() {
         policy.on_remove(key);
+        removed_cost = removed_cost.wrapping_add(entry.cost());
       }
       guard.clear();
     }
@@ -539,12 +541,14 @@ where
       policy.clear();
     }
 
-    // 4. Reset metrics and cost gate.
+    // 4. Give back exactly the cost of the entries removed above. The counter is not
+    //    zeroed: inserts and removals account for their cost after releasing the shard
+    //    lock, so an update that is still in flight must not be overwritten.
     self
       .shared
       .metrics
       .current_cost
-      .store(0, std::sync::atomic::Ordering::Relaxed);
+      .fetch_sub(removed_cost, std::sync::atomic::Ordering::Relaxed);
   }
 
   /// Private helper for cache hits. Called while the shard guard is held,
